@@ -275,7 +275,7 @@ Definition plan_of (inp : input) (bs : list tbox) : option plan :=
       let ml := metadata_len (tb_payload inp f) (tb_payload inp m) in
       let off := tb_off d in
       if off =? ml then Some (Pad 0)
-      else if (ml + 8 <=? off) && (off - ml <=? 4294967295 - 8) then Some (Pad (off - ml))
+      else if (ml + 8 <=? off) && (off - ml <=? 4294967295 - 8) && (off - ml <=? ml) then Some (Pad (off - ml))   (* padding never exceeds the metadata itself (C10) *)
       else let delta := (Z.of_N ml - Z.of_N off)%Z in
            if (- 2 ^ 31 <=? delta)%Z && (delta <? 2 ^ 31)%Z then Some (Shift delta) else Some Refuse
   | _, _, _ => None
